@@ -2,7 +2,7 @@ import Splipy.Lemmas.C17Catalogue
 
 /-! Lemmas for C17: twins policy of `ObjectCatalogue.lookup`, handedness check of `SplineModel`. -/
 
-namespace Splipy
+namespace Splipy.MP
 
 theorem Model.resolve_single_reject (m : Model) (obj : Obj) (lower : List (List ℕ)) (add : Bool)
     (twins : List ℕ) (c : ℕ) (hc : (m.level obj.pardim).get (lower.getLastD []) = [c])
@@ -76,4 +76,4 @@ theorem SplineModel.new_wrong_dims (pardim dimension : ℕ)
   unfold SplineModel.new
   simp [h]
 
-end Splipy
+end Splipy.MP
